@@ -113,22 +113,34 @@ def run(chk, repo):
     chk.rule('C02.e', 'R-GUARD: M-removed form only for start-codon peptides starting with M', 2)
     tm = repo.func(VPD + 'MiscleavedNodes.translational_modification')
     chk.uses(tm)
-    tcfg = CFG(tm.node)
-    trel = tm.module.relpath
-    sites = [n for n in tcfg.nodes if n.kind == 'stmt' and isinstance(n.ast, ast.Assign) and isinstance(n.ast.value, ast.Subscript)
-             and isinstance(n.ast.value.slice, ast.Slice) and unparse(n.ast.value.slice) == '1:' and unparse(n.ast.value.value) in ('seq', 'seq_mod')]
-    for s in sites:
-        base = unparse(s.ast.value.value)
-        formula = f"is_start_codon and {base}.startswith('M')"
-        ps = G.paths_to(tcfg, s.id, loop_bound=1, max_paths=20000)
-        chk.paths += len(ps)
-        bad = next((p for p in ps if p.facts.known(formula) is not True), None)
-        chk.ob('C02.e', f"'{norm_stmt(s.ast)}' only under {formula}", repo.loc(tm, s.ast), bad is None and bool(ps),
-               f"the methionine-removed form '{norm_stmt(s.ast)}' can be emitted for a peptide that does not begin at the start codon "
-               "(an internal M after a cleavage site): the result is not a digestion product", key=tm.qual + f'::m-removal::{base}',
-               path=bad.describe(trel) if bad else None, fn=tm.qual)
-    if len(sites) < 2:
-        chk.ob('C02.e', 'both M-removal sites found', tm.where, False, f"{len(sites)} M-removal sites", key=tm.qual + '::m-removal-sites', fn=tm.qual)
+    ntm = sem.nf(repo, tm)
+    chains = sem.block_chains(ntm)
+    n_sites = 0
+    for y, fx in sem.yield_tuples(ntm):
+        E = sem.expand_names(ntm, y, y.value.value.elts[0], chains=chains)
+        if not (isinstance(E, ast.Subscript) and isinstance(E.slice, ast.Slice) and E.slice.upper is None and unparse(E.slice.lower) == '1'):
+            continue
+        n_sites += 1
+        base = unparse(E.value)
+        lits = dict(fx.d) if fx is not None else {}
+        if fx is not None:
+            for name, dexpr in fx.defs.items():
+                if lits.get(name) is True:
+                    for a, p in (sem.conj_literals(dexpr, True) or set()):
+                        lits.setdefault(a, p)
+        mb = set()
+        for a, p in lits.items():
+            if p is True and a.endswith(".startswith('M')"):
+                try:
+                    mb.add(unparse(sem.expand_names(ntm, y, ast.parse(a[:-len(".startswith('M')")], mode='eval').body, chains=chains)))
+                except SyntaxError:
+                    pass
+        ok = fx is None or (lits.get('is_start_codon') is True and base in mb)
+        chk.ob('C02.e', f"Met-removed form '{unparse(E)[:40]}' only under is_start_codon and {base[:30]}.startswith('M')", tm.where, ok,
+               f"the methionine-removed form '{unparse(E)}' can be emitted for a peptide that does not begin at the start codon "
+               "(an internal M after a cleavage site): the result is not a digestion product", key=tm.qual + f"::m-removal::{'seq_mod' if '[:' in base else 'seq'}", fn=tm.qual)
+    chk.ob('C02.e', 'both Met-removed forms (plain and Sec-truncated) are present', tm.where, n_sites >= 2, f"{n_sites} M-removal sites",
+           key=tm.qual + '::m-removal-sites', fn=tm.qual)
 
     # ------------------------------------------------------------------ f
     chk.rule('C02.f', 'R-SIBLING (contradiction): whole-node peptide starts consult the same pop-collapse flag in every traversal', 2)
